@@ -168,6 +168,130 @@ fn audited_history<F: Fm, A: Atomicity>(rng: &mut Rng, nops: usize, st: &mut Sta
     Ok(nops)
 }
 
+/// Byte-tendril-only operations under the allocator audit: extend_with_byte / push_uninitialized
+/// (through the safe wrapper), io::Write, read_to_tendril, DerefMut writes, interleaved with
+/// with_capacity / reserve / clear / pops so that "owned but short" states are reached.
+fn audited_bytes_history<A: Atomicity>(rng: &mut Rng, nops: usize, st: &mut Stats, audit: bool) -> Result<usize, String> {
+    use std::io::Write;
+    use tendril::ReadExt;
+    let mut pool: Vec<(Tendril<Bytes, A>, Vec<u8>)> = Vec::with_capacity(16);
+    let base = valloc::snapshot();
+    for opno in 0..nops {
+        let n = pool.len();
+        let i = if n > 0 { rng.below(n) } else { 0 };
+        match if n == 0 { 0 } else { rng.below(14) } {
+            0 => {
+                let cap = *rng.pick(&LENS) as u32;
+                pool.push((attributed(|| Tendril::<Bytes, A>::with_capacity(cap)), vec![]));
+            },
+            1 => {
+                let c = { let __n = *rng.pick(&LENS); Bytes::gen(rng, __n) };
+                pool.push((attributed(|| Tendril::<Bytes, A>::from_slice(&c)), c));
+            },
+            2 | 3 | 4 => {
+                let k = *rng.pick(&[0u32, 1, 2, 3, 5, 7, 8, 9, 16, 40, 300]);
+                let v = (rng.next_u64() & 0xff) as u8;
+                let (t, m) = &mut pool[i];
+                attributed(|| t.extend_with_byte(k, v));
+                m.extend(std::iter::repeat(v).take(k as usize));
+                st.count("bytes:extend_with_byte");
+            },
+            5 => {
+                let add = { let __n = *rng.pick(&LENS[..10]); Bytes::gen(rng, __n) };
+                let (t, m) = &mut pool[i];
+                attributed(|| t.write_all(&add)).map_err(|e| e.to_string())?;
+                m.extend(&add);
+            },
+            6 => {
+                let add = { let __n = *rng.pick(&LENS); Bytes::gen(rng, __n) };
+                let (t, m) = &mut pool[i];
+                let mut rd: &[u8] = &add;
+                attributed(|| rd.read_to_tendril(t)).map_err(|e| e.to_string())?;
+                m.extend(&add);
+                st.count("bytes:read_to_tendril");
+            },
+            7 => {
+                let (t, m) = &mut pool[i];
+                attributed(|| t.clear());
+                m.clear();
+            },
+            8 => {
+                let k = *rng.pick(&LENS) as u32;
+                let t = &mut pool[i].0;
+                attributed(|| t.reserve(k));
+            },
+            9 => {
+                let len = pool[i].1.len();
+                let k = rng.below(len + 1);
+                let (t, m) = &mut pool[i];
+                attributed(|| t.pop_back((len - k) as u32));
+                m.truncate(k);
+            },
+            10 => {
+                let len = pool[i].1.len();
+                if len > 0 {
+                    let k = rng.below(len);
+                    let v = (rng.next_u64() & 0xff) as u8;
+                    let (t, m) = &mut pool[i];
+                    attributed(|| t[k] = v);
+                    m[k] = v;
+                }
+            },
+            11 => {
+                let c = attributed(|| pool[i].0.clone());
+                let m = pool[i].1.clone();
+                pool.push((c, m));
+            },
+            _ => {
+                let (t, _) = pool.swap_remove(i);
+                attributed(|| drop(t));
+            },
+        }
+        st.count("audited_ops");
+        for (t, m) in &pool {
+            if &t[..] != &m[..] {
+                return Err(format!("op #{opno}: content differs from model"));
+            }
+        }
+        if audit {
+            if let Some(v) = valloc::take_violation() {
+                return Err(format!("op #{opno}: allocator monitor: {v}"));
+            }
+            let snap = valloc::snapshot();
+            let live = snap.live - base.live;
+            let want = expected_blocks(&pool);
+            st.count("conservation_checks");
+            if live != want {
+                return Err(format!("op #{opno}: {live} tendril heap buffers are live, the pool accounts for {want} (owned + distinct shared buffers)"));
+            }
+        }
+        if pool.len() > 10 {
+            let k = rng.below(pool.len());
+            let (t, _) = pool.swap_remove(k);
+            attributed(|| drop(t));
+        }
+    }
+    for (t, _) in pool.drain(..) {
+        attributed(|| drop(t));
+    }
+    if audit {
+        if let Some(v) = valloc::take_violation() {
+            return Err(format!("at teardown: allocator monitor: {v}"));
+        }
+        let snap = valloc::snapshot();
+        if snap.live != base.live {
+            return Err(format!("{} tendril heap buffers still allocated after every tendril was dropped", snap.live - base.live));
+        }
+        st.add("allocations_audited", snap.allocs - base.allocs);
+        st.add("frees_audited", snap.frees - base.frees);
+        match valloc::reset() {
+            Ok(n) => st.add("blocks_verified_at_reset(poison+redzones)", n as u64),
+            Err(e) => return Err(format!("at arena reset: {e}")),
+        }
+    }
+    Ok(nops)
+}
+
 /// Clones / sub-slices of one atomic tendril distributed over threads, which read, slice, mutate
 /// (forcing copy-on-write), round-trip through SendTendril and drop in randomised orders.
 fn thread_scenario(seed: u64, nthreads: usize, st: &mut Stats, audit: bool) -> Result<(), String> {
@@ -316,7 +440,9 @@ fn parser_driven(rng: &mut Rng, st: &mut Stats) {
 
 fn one_history(family: usize, hseed: u64, nops: usize, st: &mut Stats, audit: bool) -> Result<usize, String> {
     let mut rng = Rng::new(hseed);
-    match catch(|| match family % 6 {
+    match catch(|| match family % 8 {
+        6 => audited_bytes_history::<NonAtomic>(&mut rng, nops, st, audit),
+        7 => audited_bytes_history::<Atomic>(&mut rng, nops, st, audit),
         0 => audited_history::<UTF8, NonAtomic>(&mut rng, nops, st, audit),
         1 => audited_history::<Bytes, NonAtomic>(&mut rng, nops, st, audit),
         2 => audited_history::<WTF8, NonAtomic>(&mut rng, nops, st, audit),
@@ -364,7 +490,7 @@ pub fn run(args: &Args) -> (Meta, Stats) {
             break;
         }
         let hseed = mix(seed ^ 0xC12, k);
-        let family = (k % 6) as usize;
+        let family = (k % 8) as usize;
         let nops = if sanit { 60 } else { 50 + (hseed % 300) as usize };
         k += 1;
         st.case(Some(hseed));
